@@ -121,3 +121,9 @@ Definition k_checkpoint (k : ksplitter) : list shard * N := (assigned_splits (tr
 Definition k_start := k_start_gen true true.
 Definition k_tick := k_tick_gen true.
 Definition k_finish := k_finish_gen true.
+
+(* ---------- jobs/job.go start(): which job checkpoint a (re)deployment uses ----------
+   The job reads snapshotStore.CurrentCheckpoint() once ([cur_at_read], 0 = none), deploys the operators from it and
+   starts the source splitter with the source checkpoint of the SAME job checkpoint, whatever has been published
+   meanwhile ([cur_after_deploy]). Result: (id the operators are deployed from, id the splitter is started from). *)
+Definition job_start (cur_at_read cur_after_deploy : N) : N * N := (cur_at_read, cur_at_read).
